@@ -8,6 +8,7 @@ pub mod l2;
 pub mod l3;
 pub mod l1;
 pub mod mitm;
+pub mod wire;
 
 pub fn dispatch() -> Option<ExitCode> {
     let args: Vec<String> = std::env::args().collect();
@@ -40,6 +41,8 @@ fn handle(toks: &[&str]) -> String {
         "mitm" => mitm::run(&toks[1..]).unwrap_or_else(|| "bad-op".to_string()),
         "mkframes" => mitm::mkframes(&toks[1..]).unwrap_or_else(|| "bad-op".to_string()),
         "key" => l1::key(&toks[1..]).unwrap_or_else(|| "bad-op".to_string()),
+        "wire" => wire::wire(&toks[1..]).unwrap_or_else(|| "bad-op".to_string()),
+        "chan" => wire::chan(&toks[1..]).unwrap_or_else(|| "bad-op".to_string()),
         "filt" => l1::filt(&toks[1..]).unwrap_or_else(|| "bad-op".to_string()),
         "rpd" => l1::rpd(&toks[1..]).unwrap_or_else(|| "bad-op".to_string()),
         _ => "bad-op".to_string(),
